@@ -64,6 +64,11 @@ PROPS = {
         "quick": {"stages": [st("^TestC14Fault", 150), st("^TestC14Reopen", 60)]},
         "thorough": {"stages": [st("^TestC14Fault", 800, shards=10, timeout=1800), st("^TestC14Reopen", 300, shards=6, timeout=1800)]},
     },
+    "C12": {
+        "pkg": "session", "level": "exploration",
+        "quick": {"stages": [st("^TestC12", 500)]},
+        "thorough": {"stages": [st("^TestC12", 4000, shards=12), st("^TestC12", 600, shards=4, race=True)]},
+    },
     "C10": {
         "pkg": "core", "level": "exploration",
         "quick": {"stages": [st("^TestC10", 15000)]},
